@@ -25,9 +25,12 @@
 (* A ballot is [n, k, f, e]: node, record key k = [h, r, k] with kind "I" (INIT),    *)
 (* "S" (suffrage-confirm INIT) or "A" (ACCEPT), fact name, embedded voteproof given  *)
 (* by its position (LastPoint!Zero = none). Voteproofs are identified with their     *)
-(* position [h, r, s, m, c] as in LastPoint.tla. Expels, invalid voteproofs, held    *)
-(* draws and record recycling are C04/C05's subject and not modelled: an embedded    *)
-(* voteproof is valid and carries the box's threshold.                               *)
+(* position [h, r, s, m, c] as in LastPoint.tla. Expels are one set per history      *)
+(* (every INIT / ACCEPT ballot and voteproof carries it, as after a real expel): the  *)
+(* votes of the other nodes are tallied first, and an INIT draw with expels pending   *)
+(* is held back (for ever here: the hold never expires). Invalid voteproofs and       *)
+(* record recycling are C04/C05's subject and not modelled: an embedded voteproof is  *)
+(* valid and carries the box's threshold.                                             *)
 (*                                                                                  *)
 (* Binding B (LastPointVoteTrace.tla): histories recorded from a real                *)
 (* isaacstates.Ballotbox driven with really signed ballots (harness c06 "votes":     *)
@@ -41,6 +44,7 @@ EXTENDS Integers, FiniteSets, Sequences, TLC
 CONSTANTS MaxH, MaxR,   \* ballots for heights 1..MaxH, rounds 0..MaxR
           NN0, T100,    \* suffrage size and threshold (tenths of a percent) of the closed model
           Facts,
+          Ex0,          \* the nodes every INIT / ACCEPT ballot expels ({}: nobody)
           MaxOps,       \* bound on the number of calls
           StartAll,     \* TRUE: the box starts at every position (as after SetLastPoint on a fresh box)
           StartSuf,     \* initial values of "the suffrage is known" ({TRUE}: Learn never fires)
@@ -77,11 +81,12 @@ Embeddable(k) == {Zero} \cup {e \in (IF EvpAny THEN VPs ELSE Canon(k)) : k.k = "
 Ballots == {b \in [n : Nodes0, k : Keys, f : Facts, e : VPs \cup {Zero}] : b.e \in Embeddable(b.k)}
 
 ---------------------------------------------------------------------------------
-(* the box as a value: st = [last, votes, fin, suf, nn, tt]                        *)
+(* the box as a value: st = [last, votes, fin, suf, nn, tt, ex]                    *)
 (*   votes  the ballots kept in records (voterecords.voted / ballots / vps)        *)
 (*   fin    keys of finished records (voterecords.vp # nil)                        *)
 (*   suf    the suffrage is known                                                  *)
 (*   nn, tt suffrage size, threshold                                               *)
+(*   ex     the expelled nodes named by every INIT / ACCEPT ballot of the history   *)
 RecVotes(V, k) == {v \in V : v.k = k}
 
 Min2(a, b) == IF a < b THEN a ELSE b
@@ -97,6 +102,20 @@ Tally(S, n, t) ==
      ELSE IF \E f \in F : cnt(f) >= th THEN "majority"
      ELSE IF \A f \in F : cnt(f) + miss < th THEN "draw"
      ELSE "notyet"
+
+(* voterecords.countFromVoted: countWithExpels first (the votes of the nodes the     *)
+(* ballots do not expel; at 100% over the rest when more nodes are expelled than the  *)
+(* default threshold tolerates), then the plain tally of all votes; an INIT draw      *)
+(* while expels are pending is held back                                              *)
+TallyX(S, st, k) ==
+  LET x   == Cardinality(st.ex)
+      big == x > st.nn - Req(st.nn, 670)
+      W   == {v \in S : v.n \notin st.ex}
+      tw  == IF big THEN Tally(W, st.nn - x, 1000) ELSE Tally(W, st.nn, st.tt)
+      enough == Cardinality(W) >= (IF big THEN st.nn - x ELSE Min2(Req(st.nn, st.tt), st.nn))
+  IN IF st.ex # {} /\ ~IsSC(k) /\ enough /\ tw = "majority" THEN "majority"
+     ELSE Tally(S, st.nn, st.tt)
+Held(st, k, t) == st.ex # {} /\ k.k = "I" /\ t = "draw"
 
 (* Ballotbox.isNewBallot / the check voterecords.vote and count repeat *)
 IsNewB(l, k) == LP!Before(l, SP(k), IsSC(k))
@@ -122,8 +141,8 @@ CountRec(st, k) ==
   IN IF ~st.suf \/ ~IsNewB(l, k) \/ k \in st.fin \/ S = {} THEN {st}
      ELSE
        LET E  == {v.e : v \in {w \in S : w.e # Zero /\ Filter(isc, l, w.e)}}
-           t  == Tally(S, st.nn, st.tt)
-           cv == IF t = "notyet" THEN Zero
+           t  == TallyX(S, st, k)
+           cv == IF t = "notyet" \/ Held(st, k, t) THEN Zero
                  ELSE [h |-> k.h, r |-> k.r, s |-> Stage(k),
                        m |-> IF t = "majority" THEN 1 ELSE 0,
                        c |-> IF t = "majority" /\ isc THEN 1 ELSE 0]
@@ -165,7 +184,7 @@ vars == <<box, ops, act>>
 NoBallot == [n |-> "", k |-> [h |-> 0, r |-> 0, k |-> ""], f |-> "", e |-> Zero]
 Act(a, b, voted) == [a |-> a, b |-> b, voted |-> voted]
 
-Init == /\ box \in {[last |-> l, votes |-> {}, fin |-> {}, suf |-> s, nn |-> NN0, tt |-> T100] :
+Init == /\ box \in {[last |-> l, votes |-> {}, fin |-> {}, suf |-> s, nn |-> NN0, tt |-> T100, ex |-> Ex0] :
                        l \in (IF StartAll THEN Pos \cup {Zero} ELSE {Zero}), s \in StartSuf}
         /\ ops = 0
         /\ act = Act("Init", NoBallot, FALSE)
